@@ -9,6 +9,7 @@ import Distill.Gen.Funcs
 import Distill.Model.Embed
 import Distill.Model.Markup
 import Distill.Model.Apply
+import Distill.Model.Convert
 namespace Distill.Slices
 open Distill Distill.Proto
 
@@ -167,6 +168,103 @@ def applyTailSlice : P String := do
   | some r => pure s!"ok {hex r.url} {hex r.pag.1} {hex r.pag.2}"
   | none => pure "gen-untranslated"
 
+def kindCode : Kind → Nat
+  | .text => 0 | .tagStart => 1 | .tagEnd => 2 | .image => 3 | .figure => 4 | .video => 5 | .embed => 6 | .table => 7
+
+def evStr (nodeData : Nat → String) : BEv → String
+  | .skipNode => "S"
+  | .startNode a => s!"B{bstr a.flush}{bstr a.isAnchor}{bstr a.changesTagLevel}"
+  | .endNode => "E"
+  | .addText i _ _ _ => s!"T{hex (nodeData i)}"
+  | .addBr i => s!"R{i}"
+  | .addTable i => s!"D{i}"
+  | .addTag n st => (if st then "G+" else "G-") ++ n
+  | .addEmbed k _ => s!"M{kindCode k}"
+
+mutual
+partial def textData (n : Node) : List (Nat × String) :=
+  match n with
+  | .text i d => [(i, d)]
+  | .elem _ _ _ ks => textDataL ks
+  | .other _ _ => []
+partial def textDataL (ks : List Node) : List (Nat × String) :=
+  match ks with
+  | [] => []
+  | k :: r => textData k ++ textDataL r
+end
+
+structure EAt where
+  id : Nat
+  disp : String
+  vis : Bool
+  byline : Bool
+  rxU : Bool
+  rxM : Bool
+  embed : Nat
+  table : Bool
+
+def lookupE (l : List EAt) (i : Nat) : Option EAt := l.find? (fun e => e.id == i)
+
+def atomsOf (es : List EAt) (ts : List (Nat × Bool × Nat)) : CAtoms :=
+  { styleDisplay := fun i => match lookupE es i with | some e => e.disp | none => "",
+    visHidden := fun i => match lookupE es i with | some e => e.vis | none => false,
+    byline := fun i => match lookupE es i with | some e => e.byline | none => false,
+    rxUnlikely := fun i => match lookupE es i with | some e => e.rxU | none => false,
+    rxMaybe := fun i => match lookupE es i with | some e => e.rxM | none => false,
+    embed := fun i => match lookupE es i with
+      | some e => (match kindOfCode e.embed with | some k => if e.embed == 0 then .none else .some k | none => .none)
+      | none => .none,
+    dataTable := fun i => match lookupE es i with | some e => e.table | none => false,
+    blank := fun i => match ts.find? (fun t => t.1 == i) with | some t => t.2.1 | none => false,
+    words := fun i => match ts.find? (fun t => t.1 == i) with | some t => t.2.2 | none => 0 }
+
+def atomsP : P CAtoms := do
+  let ne ← nat
+  let es ← many ne (do
+    let i ← nat; let d ← str; let v ← bool; let b ← bool; let u ← bool; let m ← bool; let e ← nat; let t ← bool
+    pure ({ id := i, disp := d, vis := v, byline := b, rxU := u, rxM := m, embed := e, table := t } : EAt))
+  let nt ← nat
+  let ts ← many nt (do let i ← nat; let b ← bool; let w ← nat; pure (i, b, w))
+  pure (atomsOf es ts)
+
+/-- `convert skipUnlikely tree atoms` → the builder calls -/
+def convertSlice : P String := do
+  let sk ← bool
+  let t ← node
+  let A ← atomsP
+  let evs := convert { skipUnlikely := sk } A [] false t
+  let td := textData t
+  let nd := fun i => match td.find? (fun p => p.1 == i) with | some p => p.2 | none => ""
+  pure (" ".intercalate (evs.map (evStr nd)))
+
+def bevP : P BEv := do
+  let k ← tok
+  if k == "S" then pure .skipNode
+  else if k == "B" then do let f ← bool; let a ← bool; let c ← bool; pure (.startNode { flush := f, isAnchor := a, changesTagLevel := c })
+  else if k == "E" then pure .endNode
+  else if k == "T" then do let i ← nat; let e ← bool; let b ← bool; let w ← nat; pure (.addText i e b w)
+  else if k == "R" then do let i ← nat; pure (.addBr i)
+  else if k == "D" then do let i ← nat; pure (.addTable i)
+  else if k == "G" then do let n ← str; let st ← bool; pure (.addTag n st)
+  else if k == "M" then do
+    let c ← nat; let i ← nat
+    match kindOfCode c with
+    | some kd => pure (.addEmbed kd i)
+    | none => failure
+  else failure
+
+def docElStr : DocEl → String
+  | .text t => s!"x{t.start}-{t.stop}:f{t.firstWord}:l{t.lastWord}:g{t.group}:w{t.numWords}:a{t.numLinked}:t{t.tagLevel}:o{t.offset}"
+  | .tag n st => (if st then "G+" else "G-") ++ n
+  | .table i => s!"D{i}"
+  | .media k _ => s!"M{kindCode k}"
+
+/-- `builder n ev*` → the element list -/
+def builderSlice : P String := do
+  let n ← nat
+  let evs ← many n bevP
+  pure (" ".intercalate ((buildDoc evs).map docElStr))
+
 def dispatch (slice : String) : Option (P String) :=
   match slice with
   | "docfilters" => some docfilters
@@ -176,6 +274,8 @@ def dispatch (slice : String) : Option (P String) :=
   | "markup" => some markupSlice
   | "oggate" => some ogGateSlice
   | "applytail" => some applyTailSlice
+  | "convert" => some convertSlice
+  | "builder" => some builderSlice
   | _ => none
 
 def answer (line : String) : String :=
